@@ -345,7 +345,7 @@ func Run(r *fw.Run) {
 	r.Rule = "8 base worlds (ipBlocks equal to single pod / node addresses; label + named-port policies; Service + Ingress; ANP + BANP; ipBlock-only and deny-all policies on a workload whose namespace has no Namespace object; a rule selector matched exactly by a real workload) x 4 document orders x each workload x every re-expression: kind in {Deployment, ReplicaSet, StatefulSet, DaemonSet, Job, CronJob, ReplicationController, bare Pods with one controller ownerReference} x replicas/parallelism in {absent,0,1,2,3}; workload-level labels and selectors differ from the pod-template labels; the report must equal the base report modulo the [Kind] suffix, with exactly one peer per workload, and (worlds without admin policies) the txt report of list --exposure must be the same multiset of lines modulo the suffix; plus worlds of distinct workloads whose generated pod names could coincide (every ordered pair of 8 items, replicas 1..2); non-trivial/distinct = each re-expression"
 	r.Assume = []string{"others workloads of the world stay Deployments with 1 replica while one is re-expressed"}
 	if r.Quick() {
-		r.SetBudget(120 * time.Second)
+		r.SetBudget(300 * time.Second)
 	} else {
 		r.SetBudget(20 * time.Minute)
 	}
